@@ -214,6 +214,13 @@ type sessSys struct {
 	confirming        bool                         // an oracle is executing a confirmation request (oracles do not recurse)
 	preStep           func(s *sessSys, r *sessReq) // called before a request is injected
 	emEarly           int                          // C14: end markers found queued while datapath commands were still arriving
+	// afterRefusal: a session request that was refused leaves the model where it was, so the state key would merge the
+	// state with its parent and nothing would ever be tried after a refusal - although what a (wrong) implementation
+	// keeps from a refused request is exactly what such a state differs in. With afterRefusal the label of the last
+	// refused request is part of the key until the next accepted request (two refusals in a row are not distinguished
+	// further).
+	afterRefusal bool
+	lastRefused  string
 }
 
 func (s *sessSys) close() { s.in.close() }
@@ -377,6 +384,13 @@ func (s *sessSys) exec(r *sessReq) *stepCtx {
 	if r.Kind == kSRR && r.Cause == ie.CauseSessionContextNotFound && !r.NoCause && ctx.sess != nil && ctx.pframe == "" {
 		ctx.sess.Dead = true // the CP lost the context: the agent must drop the session
 	}
+	if s.afterRefusal && !s.confirming && (r.Kind == kEst || r.Kind == kMod || r.Kind == kDel) {
+		if ctx.accepted {
+			s.lastRefused = ""
+		} else if s.lastRefused == "" {
+			s.lastRefused = r.Label
+		}
+	}
 	for _, o := range s.oracles {
 		o(ctx)
 	}
@@ -434,6 +448,9 @@ func (s *sessSys) key() string {
 	var b strings.Builder
 	rn := s.renamer()
 	fmt.Fprintf(&b, "assoc=%v gone=%v poisoned=%v\n", s.m.Assoc, s.m.Gone, s.poisoned)
+	if s.lastRefused != "" {
+		fmt.Fprintf(&b, "after-refused=%s\n", s.lastRefused)
+	}
 	for i, t := range s.m.PFD {
 		if t != nil {
 			ks := make([]string, 0, len(t))
